@@ -46,7 +46,9 @@ def c05 (op : String) (args : List String) (impl : String) : Verdict :=
   match op, args with
   | "exchange", [code, id, auth, secret, attrs, maxErr, skip, hist] =>
     -- `default`: the call goes through the package-level radius.Exchange, i.e. DefaultClient (MaxPacketErrors 10)
-    let maxErr := if maxErr == "default" then "10" else maxErr
+    -- `default:<n>`: the same, after the caller has set DefaultClient.MaxPacketErrors = n (and InsecureSkipVerify as given)
+    let maxErr := if maxErr == "default" then "10"
+      else if maxErr.startsWith "default:" then (maxErr.drop 8).toString else maxErr
     match parseInt code, parseNat id, unhex auth, unhex secret, parseAttrList attrs, parseInt maxErr, parseNat skip,
           parseHistory hist with
     | some code, some id, some auth, some secret, some attrs, some maxErr, some skip, some hist =>
